@@ -1,6 +1,7 @@
 import SlotVerif.Driver.SlotMapDrv
 import SlotVerif.Driver.SlotDrv
 import SlotVerif.Driver.ShapeDrv
+import SlotVerif.Driver.ParseDrv
 /-! `svdriver`: reads one case per line `<suite> <body>`, prints one answer line per case. -/
 open SV.Drv
 
@@ -13,6 +14,7 @@ def dispatch (line : String) : String :=
     | "sm" => smRun body
     | "slot" => slotRun body
     | "shape" => shapeRun body
+    | "parse" => parseRun body
     | _ => "bad-suite"
   | [] => "bad-line"
 
